@@ -116,6 +116,35 @@ func c11Bracket(c *Ctx) *RuleResult {
 		sel, ok := ast.Unparen(kv.Value).(*ast.SelectorExpr)
 		return ok && exprStr(sel.X) == x.Decl.Recv.List[0].Names[0].Name
 	})
+	// helpers that suspend and hand the matching Resume back as a function value:
+	//   func (x *T) suspend() func() { x.s.Suspend(); return x.s.Resume }
+	resumeReturners := map[*types.Func]bool{}
+	for _, u := range p.Units("pkg/blobstore", "pkg/cas") {
+		info := u.Info()
+		susp, ret := false, false
+		ast.Inspect(u.Decl.Body, func(n ast.Node) bool {
+			switch x := n.(type) {
+			case *ast.CallExpr:
+				if sel, ok := ast.Unparen(x.Fun).(*ast.SelectorExpr); ok && sel.Sel.Name == "Suspend" {
+					if tv, ok := info.Types[sel.X]; ok && namedIs(tv.Type, modPath+"/"+clockPkg, "Suspendable") {
+						susp = true
+					}
+				}
+			case *ast.ReturnStmt:
+				if len(x.Results) == 1 {
+					if sel, ok := ast.Unparen(x.Results[0]).(*ast.SelectorExpr); ok && sel.Sel.Name == "Resume" {
+						if tv, ok := info.Types[sel.X]; ok && namedIs(tv.Type, modPath+"/"+clockPkg, "Suspendable") {
+							ret = true
+						}
+					}
+				}
+			}
+			return true
+		})
+		if susp && ret {
+			resumeReturners[u.Fn] = true
+		}
+	}
 	for _, u := range p.Units("pkg/blobstore", "pkg/cas") {
 		if u.Decl.Recv == nil || len(u.Decl.Recv.List[0].Names) == 0 {
 			continue
@@ -148,11 +177,22 @@ func c11Bracket(c *Ctx) *RuleResult {
 						}
 					}
 				}
+				// resume := x.suspend()
+				if as, ok := n.(*ast.AssignStmt); ok && len(as.Lhs) == 1 && len(as.Rhs) == 1 {
+					if call, ok := ast.Unparen(as.Rhs[0]).(*ast.CallExpr); ok {
+						if fn := calleeOf(info, call); fn != nil && resumeReturners[fn] {
+							return []Born{{Key: "func:" + exprStr(as.Lhs[0]), Pos: call.Pos()}}
+						}
+					}
+				}
 				return nil
 			},
 			Discharge: func(n ast.Node, key string) int {
 				if call, ok := n.(*ast.CallExpr); ok {
 					if k, ok := isSusp(call, "Resume"); ok && k == key {
+						return 1
+					}
+					if id, ok := ast.Unparen(call.Fun).(*ast.Ident); ok && "func:"+id.Name == key {
 						return 1
 					}
 				}
@@ -161,6 +201,12 @@ func c11Bracket(c *Ctx) *RuleResult {
 			Transfer: func(n ast.Node, key string) bool {
 				if kv, ok := n.(*ast.KeyValueExpr); ok && exprStr(kv.Value) == key {
 					return true
+				}
+				// the matching Resume is handed to the caller as a function value
+				if ret, ok := n.(*ast.ReturnStmt); ok && len(ret.Results) == 1 && resumeReturners[u.Fn] {
+					if sel, ok := ast.Unparen(ret.Results[0]).(*ast.SelectorExpr); ok && sel.Sel.Name == "Resume" && exprStr(sel.X) == key {
+						return true
+					}
 				}
 				// a helper method of the same object that builds the completion handler from the
 				// object's own Suspendable
